@@ -51,7 +51,8 @@ def run(tier, seed):
         quick_num=24, thorough_num=250,
         assumptions=kc.COMMON_ASSUMPTIONS, rule=RULE, needed_events=NEEDED,
         mc_cfgs=(['MC_Krill_q_roll.cfg'] if tier == "quick" else ['MC_Krill_q_roll.cfg', 'MC_Krill_roll.cfg']),
-        directed=DIRECTED + kc.MULTI_DIRECTED[1:],
+        directed=(DIRECTED + kc.MULTI_DIRECTED[1:]
+                  + kc.clause("roll-interleaved", "roll-parent-and-child")),
         theme_nums={"multi": (8, 80), "mix": (6, 60)})
 
 
